@@ -2,7 +2,7 @@
 from .. import common, gen, parsing
 
 LEVEL = "proof"
-EXTRA_LEAN_MODULES = ["Luqum.Props.C01Num", "Luqum.Props.C01b", "Luqum.Props.GenRuntime", "Luqum.Props.GenGlue", "Luqum.Props.GenPrint", "Luqum.Props.GenHandle"]
+EXTRA_LEAN_MODULES = ["Luqum.Props.C01Num", "Luqum.Props.C01b", "Luqum.Props.GenRuntime", "Luqum.Props.GenGlue", "Luqum.Props.GenPrint", "Luqum.Props.GenHandle", "Luqum.Props.GenActions"]
 RULE = ("grammar-directed query strings (every production, depth 0-4, random Unicode separators at every "
         "token gap, numerals in all spellings incl. >28 digits) + a malformed stream; non-trivial = accepted "
         "by the parser; distinct = distinct strings")
